@@ -183,6 +183,10 @@ def write_family(seed, tier, ws):
         if w != 2:
             items.append(runner.Item(('wbool', 'w', w), 'empty @is_you(int a) { write(a); write(a < 0); write(a > 0); bool t = a == 5; writeln(t); writeln(not t); write("ab" is byte[]); write("xyz"); }',
                                      ['5'], w=w, s=60, meta={'family': 'write_bool'}))
+    items.append(runner.Item(('wbool', 'ops'), 'empty @is_you(int a, int b) { bool t = a > 0; write(a > 0 and b > 0); write(\' \'); writeln(a > 0 or b > 0); write(not (a > 0)); write((a > 0) == (b > 0)); writeln(t and not (b > 0)); write(t or b == 2); writeln(a is bool); write((a > 0 and b > 0) or (a < 0 and b < 0)); writeln(not (t and b > 0)); write(a != b); }',
+                             ['1', '0'], s=60, meta={'family': 'write_bool'}))
+    items.append(runner.Item(('wbool', 'ops2'), items[-1].src, ['3', '2'], s=60, meta={'family': 'write_bool'}))
+    items.append(runner.Item(('wbool', 'ops3'), items[-1].src, ['-1', '-5'], s=60, meta={'family': 'write_bool'}))
     items.append(runner.Item(('wbool', 0), 'empty @is_you(int a) { write(a > 0); write(\' \'); writeln(a < 0); writeln(a == 0); }',
                              ['0'], s=60, meta={'family': 'write_bool'}))
     byte_prog = 'empty @is_you(const byte[] v) { for (int i = 0; i < v.length; i += 1) { write(v[i]); } writeln(); for (int j = 0; j < v.length; j += 1) { writeln(v[j]); } }'
@@ -282,6 +286,17 @@ empty @is_you() {
   write("ab"); write(['a', 'b']); const byte[] s2 = "ab" is byte[]; write(s2); string t = "ab"; write(t.length); write(97); write([97, 98][1]);
 }'''
     items.append(runner.Item(('c13', 'same_values'), same, [], s=200, meta={'family': 'const_same_values'}))
+    # tables whose values are all zero (or all equal), of every element type, each followed by other data
+    zeros = '''const int[] ZI = [0, 0, 0, 0, 0]; const int[] AFTER1 = [11, 12]; int[] MZ = [0, 0, 0]; int[] AFTER2 = [21, 22]; const byte[] ZB = [0, 0, 0]; const byte[] AFTER3 = [31, 32];
+const bool[] ZO = [false, false, false, false, false, false, false, false, false]; const bool[] AFTER4 = [true, true]; int hits[4]; int[] AFTER5 = [51]; const string[] ZS = ["", ""]; const int[] ONES = [1, 1, 1, 1];
+empty @is_you() {
+  for (int i = 0; i < 5; i += 1) { write(ZI[i]); } write(AFTER1[0]); write(','); MZ[2] += 7; MZ[1] = 3; for (int j = 0; j < 3; j += 1) { write(MZ[j]); } write(AFTER2[0]); write(AFTER2[1]); write(',');
+  for (int k = 0; k < 3; k += 1) { write(ZB[k] is int); } write(AFTER3[1] is int); for (int n = 0; n < 9; n += 1) { write(ZO[n] is int); } write(AFTER4[1]); write(',');
+  hits[3] += 4; hits[1] += 2; for (int q = 0; q < 4; q += 1) { write(hits[q]); } write(AFTER5[0]); write(ZS[1].length); write(ZS.length); for (int r = 0; r < 4; r += 1) { write(ONES[r]); }
+  const int[] lz = [0, 0, 0]; int[] lm = [0, 0]; lm[1] = 5; write(lz[2]); write(lm[0]); write(lm[1]); write(ZI.length); write(MZ.length);
+}'''
+    for w in (2, 3, 4):
+        items.append(runner.Item(('c13', 'zero_tables', w), zeros, [], w=w, s=200, meta={'family': 'const_zero_tables'}))
     # constant arrays of every length, every element type, global/local, const/mutable
     lens = list(range(0, 41)) if tier == 'thorough' else [0, 1, 2, 7, 8, 9, 15, 16, 17, 31, 32, 33, 40]
     for n in lens:
@@ -448,6 +463,24 @@ empty @is_you(int v) { try { !chk(v); write('n'); } stop { write('h'); } write(p
      None, [['0'], ['7'], ['9']]),
 ]
 
+FOLD_PROGRAMS.append(('literal_zero_elements', '''int fill(int x) { int[] junk = [x, x + 1, x + 2, x + 3, x + 4, x + 5]; return junk[5]; }
+empty @is_you(int x) { write(fill(x)); write(' '); for (int i = 0; i < 2; i += 1) { { int[] a = [9, 9, 9, 9, x + 9]; write(a[4]); } { int[] b = [x, 0, 0, 0, 0]; write(b[0] + b[1] + b[2] + b[3] + b[4]); write(' ');
+  byte[] c = [(x is byte), 0, 0]; write(c[1] is int); write(c[2] is int); bool[] d = [x > 0, false, false, false, false, false, false, false, false, false]; write(d[1]); write(d[9]); write(f3([x, 0, 0])); } } }
+int f3(const int[] p) { return p[0] * 100 + p[1] * 10 + p[2]; }''',
+                      '''int fill(int x) { int[] junk = [x, x + 1, x + 2, x + 3, x + 4, x + 5]; return junk[5]; }
+empty @is_you(int x, int z, int fi) { bool f = fi is bool; write(fill(x)); write(' '); for (int i = 0; i < 2; i += 1) { { int[] a = [9, 9, 9, 9, x + 9]; write(a[4]); } { int[] b = [x, z, z, z, z]; write(b[0] + b[1] + b[2] + b[3] + b[4]); write(' ');
+  byte[] c = [(x is byte), (z is byte), (z is byte)]; write(c[1] is int); write(c[2] is int); bool[] d = [x > 0, f, f, f, f, f, f, f, f, f]; write(d[1]); write(d[9]); write(f3([x, z, z])); } } }
+int f3(const int[] p) { return p[0] * 100 + p[1] * 10 + p[2]; }''', [['5', '0', '0'], ['0', '0', '0'], ['-3', '0', '0']]))
+# 0 as the constant operand of every operator: folding by algebraic identity must keep the faults and effects of the other side
+FOLD_PROGRAMS.append(('zero_operand_identities', '''int g = 0; int side(int v) { g += 1; write('s'); return v; }
+const int Z = 0;
+empty @is_you(int x) { write('a'); write(0 * side(x)); write(side(x) * 0); write(0 + x); write(x - 0); write(0 - x); write(Z * x); write(g); write('b');
+  if (x < 5) { write(0 / x); write('c'); write(0 % x); write('d'); write(Z / x); } else { write(Z % (x - 9)); write('e'); write(0 / (x - 9)); } write('f'); }''',
+                      '''int g = 0; int side(int v) { g += 1; write('s'); return v; }
+empty @is_you(int x, int z) { write('a'); write(z * side(x)); write(side(x) * z); write(z + x); write(x - z); write(z - x); write(z * x); write(g); write('b');
+  if (x < 5) { write(z / x); write('c'); write(z % x); write('d'); write(z / x); } else { write(z % (x - 9)); write('e'); write(z / (x - 9)); } write('f'); }''',
+                      [['3', '0'], ['0', '0'], ['9', '0'], ['12', '0'], ['-2', '0']]))
+
 # constant indices into constant strings / arrays, in and out of range, negative included: folding a lookup must keep
 # the run-time fault
 for _k in (-1, -5, -6, 5, 0, 4, 6):
@@ -496,6 +529,9 @@ def fault_family(seed, tier):
     # divisors that are compile-time constants (literal, const variable) under a run-time dividend
     add('div_const_zero', 'const int Z = 0; const int ONE = 1;\nempty @is_you(int x, int y) { int[] a = [x, 5]; int v = x; write(\'a\'); if (y == 1) { write(x / Z); } if (y == 2) { write(x %% Z); } if (y == 3) { a[0] %%= 0; } if (y == 4) { v /= 0; } if (y == 5) { a[1] /= Z; } write(x / ONE); write(\'b\'); write(a[0]); write(v); }'.replace('%%', '%'),
         [[7, k] for k in range(0, 6)])
+    # dividends that are compile-time constants (0 and others) over a run-time divisor
+    add('div_const_dividend', 'const int Z = 0; const int K = 12;\nempty @is_you(int x, int y) { write(\'a\'); if (y == 0) { write(0 / x); } if (y == 1) { write(0 %% x); } if (y == 2) { write(Z / x); } if (y == 3) { write(K %% x); } if (y == 4) { write(12 / x); } if (y == 5) { int v = 0; v /= x; write(v); } if (y == 6) { write((0 * x) / x); } write(\'b\'); }'.replace('%%', '%'),
+        [[x, k] for x in (0, 5, -1) for k in range(0, 7)])
     idx = lambda n: [[-1], [0], [n - 1], [n], [n + 1], [m], [-m - 1], [256], [-256]]
     for el, lit, n in [('int', '[3, 4, 5]', 3), ('byte', "['a', 'b', 'c', 'd']", 4), ('bool', '[true, false, true, true, false, true, false, false, true]', 9),
                        ('string', '["p", "qq"]', 2)]:
